@@ -246,8 +246,8 @@ def led__arrow_operator(self: XPathToken, left: XPathToken) -> XPathToken:
         self.parser.advance()
     elif isinstance(next_token, XPathFunction):
         self[:] = left, next_token
-        if next_token.label == 'kind test':
-            raise next_token.wrong_syntax()
+        if next_token.label == 'kind test' or next_token.symbol == 'function':
+            raise next_token.wrong_syntax()  # not a name of a function
         self.parser.advance()  # Skip static evaluation of function arguments
     else:
         next_token.expected('(name)', ':', 'Q{', '(')
